@@ -15,6 +15,9 @@ pub enum Trigger {
     SimultaneousStart,
     /// a settled cluster of n-1 nodes, then the last node starts and joins
     LateJoin,
+    /// a settled cluster of n-1 nodes; the last node was started on its own (it won its one-member
+    /// election and is a primary too); then an administrator tells the cluster's primary `join <it>`
+    LoneNodeJoinedLater,
     /// settled cluster, the primary dies
     PrimaryDies,
     /// settled cluster, `debug force-election` on node i
@@ -81,6 +84,20 @@ pub fn build(c: &Config) -> Result<NetWorld, String> {
         Trigger::LateJoin => {
             let mut w = settled_with_pids_partial(c.nodes, &c.pids)?;
             w.join_cluster(c.nodes - 1)?;
+            Ok(w)
+        }
+        Trigger::LoneNodeJoinedLater => {
+            let mut w = settled_with_pids_partial(c.nodes, &c.pids)?;
+            let i = c.nodes - 1;
+            w.nodes[i].started = true;
+            let jw = Worker::spawn(&format!("join-n{}", i + 1), &w.nodes[i].node, false);
+            w.nodes[i].join_worker = Some(jw);
+            w.nodes[i].join_worker.as_ref().unwrap().run(WCmd::InitialElection)?;
+            w.pump();
+            w.run_to_quiescence(5000)?;
+            w.clients.retain(|c| !c.done);
+            w.problems.clear();
+            w.add_client(0, &[&format!("auth {} {}", USER, PWD), &format!("join {}", node_name(i)), "<eof>"], true);
             Ok(w)
         }
         Trigger::PrimaryDies => {
@@ -164,6 +181,8 @@ pub fn configs(quick: bool) -> Vec<Config> {
     v.push(Config { nodes: 2, pids: vec![100, 200], trigger: Trigger::LateJoin });
     v.push(Config { nodes: 2, pids: vec![100, 200], trigger: Trigger::SimultaneousStart });
     v.push(Config { nodes: 2, pids: vec![200, 100], trigger: Trigger::SimultaneousStart });
+    v.push(Config { nodes: 2, pids: vec![100, 200], trigger: Trigger::LoneNodeJoinedLater });
+    v.push(Config { nodes: 3, pids: vec![100, 200, 300], trigger: Trigger::LoneNodeJoinedLater });
     v.push(Config { nodes: 2, pids: vec![100, 200], trigger: Trigger::PrimaryDies });
     for i in 0..2 {
         v.push(Config { nodes: 2, pids: vec![100, 200], trigger: Trigger::ForceElection(i) });
